@@ -51,7 +51,8 @@ PROPS = {
                         "which 'changed the description' note an edit of the description is attributed to is a heuristic of the importer and is not compared",
                         "titles are never blank after clean-up (GitLab forbids blank titles); only system notes the importer knows are generated"],
         "tests": [{"name": "TestC16Import", "quick": 6, "shards_quick": 4, "thorough": 40, "shards": 16, "timeout_quick": 900},
-                  {"name": "TestC16SlowImport", "quick": None, "thorough": None}],
+                  {"name": "TestC16SlowImport", "quick": None, "thorough": None},
+                  {"name": "TestC16ImportWhilePulling", "quick": 12, "thorough": 150, "shards": 2}],
     },
     "C18": {
         "level": "exploration",
